@@ -356,6 +356,7 @@ def check(prop, tier, seed):
             merged["viol_counts"][k] = merged["viol_counts"].get(k, 0) + v
         merged["distinct"].update(rep["distinct"])
         pl["distinct"].update(rep["distinct"])
+        pl["disjoint"] = pl.get("disjoint", 0) + rep.get("distinct_disjoint", 0)
         merged["states"].update(rep.get("states", []))
         for s in rep["samples"]:
             if len(merged["samples"]) < 12 and (j["shard"] < 3):
@@ -403,7 +404,9 @@ def check(prop, tier, seed):
         rc = 1
     # 5. evidence
     wall = time.time() - t_start
-    nontrivial = len(merged["distinct"])
+    # distinct non-trivial cases: per lane, hashed signatures (union over shards) plus exactly
+    # enumerated ones (shards partition the space); lanes repeat the same workload, so take the max
+    nontrivial = max([len(v["distinct"]) + v.get("disjoint", 0) for v in per_lane.values()] + [0])
     cov = dict(
         evaluations=merged["evaluations"],
         distinct_nontrivial=nontrivial,
@@ -411,7 +414,7 @@ def check(prop, tier, seed):
         samples=merged["samples"] if merged["samples"] else ["(no sample recorded)"],
         exhaustive=bool(merged["exhaustive"]) and merged["evaluations"] > 0,
         lanes={k: dict(evaluations=v["evaluations"], shards=v["shards"], max_shard_wall_s=v["wall_s"],
-                       distinct_signatures=len(v["distinct"])) for k, v in per_lane.items()},
+                       distinct_signatures=len(v["distinct"]) + v.get("disjoint", 0)) for k, v in per_lane.items()},
         observations=merged["counters"],
         coverage_buckets=merged["buckets"],
         builds=build_info,
